@@ -1,4 +1,5 @@
 import ComposeVerif.Model.EnvLayersLoad
+import ComposeVerif.Model.Val
 /-!
 # C16 — the second call site of the resolution and services defined in another directory (round 6)
 
@@ -37,5 +38,26 @@ def Service.reloc (ρ : Str → Str) (s : Service) : Service :=
 /-- `fs'` holds at `ρ p` what `fs` holds at `p` (same registry of formats) -/
 def FS.Relocates (ρ : Str → Str) (fs fs' : FS) : Prop :=
   (∀ p, fs'.node (ρ p) = fs.node p) ∧ fs'.formats = fs.formats
+
+/-! ## the trees of the composed pipeline (`Model/Pipeline.lean`) read as C16's tokenised forms -/
+open CV CV.Val
+
+/-- the project environment of the pipeline (`configDetails.Environment`) as C16's model has it -/
+def penvOf (env : List (String × String)) : List (Key × Str) := env.map fun p => (p.1.toList, p.2.toList)
+
+/-- an element of the YAML `environment` sequence as the leaf of the tree the pipeline works on -/
+def Item.val (it : Item) : Val := .str (String.ofList it.text)
+
+/-- the sequence form of `environment` as a tree -/
+def seqVal (items : List Item) : Val := .seq (items.map Item.val)
+
+/-- the key of an element of the sequence form -/
+def Item.key : Item → Key
+  | .kv k _ => k
+  | .bare k => k
+
+/-- the mapping form of `environment` as a tree: `k:` (null) is the entry without value -/
+def mapVal (kvs : List (Key × Option Str)) : KVs :=
+  kvs.map fun kv => (String.ofList kv.1, match kv.2 with | none => Val.null | some v => Val.str (String.ofList v))
 
 end CV.EnvLayers
